@@ -181,3 +181,17 @@ Proof.
   by rewrite -[dN](mulKmx U) E2 mulmxN mulmxA.
 Qed.
 End Inverse.
+
+(* constant factors *)
+Section MxCalcConst.
+Variable x : R.
+Lemma mx_deriveMl m n p (A : 'M[R]_(m,n)) (B : R -> 'M[R]_(n,p)) dB :
+  mx_derive B x dB -> mx_derive (fun t => A *m B t) x (A *m dB).
+Proof. move=> HB. apply: mx_derive_val (mx_deriveM (mx_derive_cst x A) HB). by rewrite mul0mx add0r. Qed.
+Lemma mx_deriveMr m n p (A : R -> 'M[R]_(m,n)) (B : 'M[R]_(n,p)) dA :
+  mx_derive A x dA -> mx_derive (fun t => A t *m B) x (dA *m B).
+Proof. move=> HA. apply: mx_derive_val (mx_deriveM HA (mx_derive_cst x B)). by rewrite mulmx0 addr0. Qed.
+Lemma mx_derive_ex_inv n (M : R -> 'M[R]_n) dM :
+  mx_derive M x dM -> M x \in unitmx -> mx_derive (fun t => invmx (M t)) x (- (invmx (M x) *m dM *m invmx (M x))).
+Proof. by move=> HM U; apply: mx_derive_inv => //; rewrite -unitfE -unitmxE. Qed.
+End MxCalcConst.
